@@ -67,6 +67,14 @@ def cases(draw):
     }
     if c["version"] >= 200:
         c["unclosed"] = False
+    if c["start"] is not None and draw(st.integers(0, 5)) == 0:
+        # one day asked for: start and end are the same instant
+        c["end"] = dict(c["start"])
+    if cli and draw(st.integers(0, 7)) == 0:
+        # a customer with a long list of accounts (more than fit any batch size one might think of)
+        t = sorted(cli)[0]
+        cli[t] = ["%s%03d" % (t[:2].upper(), i) for i in range(draw(st.sampled_from([26, 31, 40, 51, 77])))]
+        c["many"] = True
     if c["all"]:
         n = draw(st.integers(0, 7))
         accts = []
